@@ -104,6 +104,8 @@ def _call_gen(ugens, ins, args):
         return f(args[0], args[1], list(args[2:]))
     if name == 'LocalOut':
         return f(list(args))
+    if name in ('DecodeB2', 'PanAz'):
+        return f(ins['nout'], *args)                # first constructor argument = number of output channels
     if name == 'LocalBuf':
         return cls.new(args[1], args[0])          # new(frames, channels) -> inputs (channels, frames, max)
     if name == 'SetBuf':
@@ -241,7 +243,7 @@ class Builder:
         observed on purpose by the C20 driver only)"""
         log = dict(units={}, created=[], wf=[], sdef=None)
         rec = dict(raised=0, err='', msg='', stage='', nbytes=0, sha='', parsed=scgf.parse(b''),
-                   m=[0] * len(prog['ins']), created=[], wf=[], late=0)
+                   m=[0] * len(prog['ins']), created=[], wf=[], late=0, proj_err='')
         rec['parsed']['defs'] = []
         func = self.graph_function(prog, log, hook)
         rates = [CTL_RATE[c['r']] for c in prog['ctl']]
@@ -265,35 +267,38 @@ class Builder:
         # units this function created that ended up attached to some other definition (or none)
         rec['lost'] = sum(1 for u in log['units'].values()
                           if u is not None and log['sdef'] is not None and u._synthdef is not log['sdef'])
-        if data is not None:
-            rec['nbytes'] = len(data)
-            rec['sha'] = hashlib.sha1(data).hexdigest()
-            rec['parsed'] = scgf.parse(data)
-            if keep:
-                rec['bytes_hex'] = data.hex()
-            final = list(sd._children)
-            pos = {id(u): i for i, u in enumerate(final)}
-            for idx, u in log['units'].items():
-                if u is not None and id(u) in pos and final[pos[id(u)]] is u:
-                    rec['m'][idx] = pos[id(u)] + 1
-            # creation order of the emitted units (0 = created by the compiler, not by the function)
-            cpos = {id(u): i for i, u in enumerate(log['created'])}
-            rec['created'] = [cpos.get(id(u), -1) + 1 for u in final]
-            wfset = {id(u) for u in log['wf']}
-            rec['wf'] = [1 if id(u) in wfset else 0 for u in final]
-            # width-first units the function created that are NOT in the emitted list (creation index)
-            rec['wf_lost'] = [cpos[id(u)] + 1 for u in log['wf'] if id(u) not in pos]
-            # (bytes the independent reader cannot parse are not fed to the library's reader: garbage counts
-            #  could make it allocate without bound; the verdict is 'malformed' anyway)
-            if desc and rec['parsed']['ok'] == 1:
-                rec['desc'] = [self.describe(lambda: self.sdc.SynthDesc.new_from(sd)),
-                               self.describe(lambda: self.sdc.SynthDesc._read_stream(io.BytesIO(data))[0]),
-                               self.describe(lambda: self.read_file(data))]
-            if post is not None:
-                # something done with the finished definition (add / store / ...): recorded, not judged
-                rec['post'] = post(sd, data)
-            if gc_safe:
-                release_bytes(sd)
+        try:
+            if data is not None:
+                rec['nbytes'] = len(data)
+                rec['sha'] = hashlib.sha1(data).hexdigest()
+                rec['parsed'] = scgf.parse(data)
+                if keep:
+                    rec['bytes_hex'] = data.hex()
+                final = list(sd._children)
+                pos = {id(u): i for i, u in enumerate(final)}
+                for idx, u in log['units'].items():
+                    if u is not None and id(u) in pos and final[pos[id(u)]] is u:
+                        rec['m'][idx] = pos[id(u)] + 1
+                # creation order of the emitted units (0 = created by the compiler, not by the function)
+                cpos = {id(u): i for i, u in enumerate(log['created'])}
+                rec['created'] = [cpos.get(id(u), -1) + 1 for u in final]
+                wfset = {id(u) for u in log['wf']}
+                rec['wf'] = [1 if id(u) in wfset else 0 for u in final]
+                # width-first units the function created that are NOT in the emitted list (creation index)
+                rec['wf_lost'] = [cpos.get(id(u), -1) + 1 for u in log['wf'] if id(u) not in pos]
+                # (bytes the independent reader cannot parse are not fed to the library's reader: garbage counts
+                #  could make it allocate without bound; the verdict is 'malformed' anyway)
+                if desc and rec['parsed']['ok'] == 1:
+                    rec['desc'] = [self.describe(lambda: self.sdc.SynthDesc.new_from(sd)),
+                                   self.describe(lambda: self.sdc.SynthDesc._read_stream(io.BytesIO(data))[0]),
+                                   self.describe(lambda: self.read_file(data))]
+                if post is not None:
+                    # something done with the finished definition (add / store / ...): recorded, not judged
+                    rec['post'] = post(sd, data)
+                if gc_safe:
+                    release_bytes(sd)
+        except Exception as e:      # the projection must never kill the driver: what could be read is the record
+            rec['proj_err'] = type(e).__name__ + ': ' + str(e)[:80]
         return rec
 
     def read_file(self, data):
